@@ -35,7 +35,7 @@ func C12_Jobs() []string {
 		for _, s := range []string{"top-struct", "struct-in-slice", "struct-behind-ptr", "nested-struct", "slice-in-struct", "custom-in-struct", "primitive"} {
 			out = append(out, "arg/"+s+"/"+m)
 		}
-		out = append(out, "post/order/"+m, "post/gated/"+m, "post/error/"+m, "post/zogissue/"+m, "post/struct/"+m, "post/slice/"+m)
+		out = append(out, "post/order/"+m, "post/gated/"+m, "post/error/"+m, "post/zogissue/"+m, "post/struct/"+m, "post/slice/"+m, "post/error-catch/"+m)
 	}
 	out = append(out, "preprocess/ok", "preprocess/error", "preprocess/mismatch", "preprocess/in-struct",
 		"after-catch/post-error/parse", "after-catch/post-error/validate", "after-catch/preprocess-error/parse", "after-catch/custom/parse", "after-catch/custom/validate", "after-catch/slice-elements/parse")
@@ -193,6 +193,11 @@ func C12_Run(job string) {
 			errs := run(z.Int().PostTransform(mk("1", 0)).PostTransform(mk("2", 1)).PostTransform(mk("3", 0)))
 			v.Assert(log == "12", "C12:posttransform-not-stopped-by-error")
 			v.Assert(len(errs) == 1 && errs[0].Err == boom && errs[0].Path == "", "C12:posttransform-error-not-reported")
+		case "error-catch":
+			// the first error stops the remaining transforms also on a catching node
+			errs := run(z.Int().Catch(7).PostTransform(mk("1", 0)).PostTransform(mk("2", 1)).PostTransform(mk("3", 0)))
+			v.Assert(log == "12", "C12:posttransform-not-stopped-by-error")
+			_ = errs
 		case "zogissue":
 			errs := run(z.Int().PostTransform(mk("1", 2)).PostTransform(mk("2", 0)))
 			v.Assert(log == "1", "C12:posttransform-not-stopped-by-error")
@@ -325,6 +330,15 @@ func C12_Run(job string) {
 			errs := z.Struct(z.Schema{"a": s}).Parse(map[string]any{"a": "not-an-int"}, &dd)
 			v.Assert(len(errs["a"]) == 1 && errs["a"][0].Code == "coerce", "C12:preprocess-mismatch-not-reported")
 			v.Assert(innerCalls == 0 && dd.A == 5 && d == 5, "C12:preprocess-error-did-not-skip-schema")
+			// types Go could convert are still a mismatch: 3.9 is not an int, 65 is not a string
+			fnCalls := 0
+			sf := z.Preprocess(func(data int, ctx z.Ctx) (int, error) { fnCalls++; return data, nil }, inner)
+			errs = z.Struct(z.Schema{"a": sf}).Parse(map[string]any{"a": 3.9}, &dd)
+			v.Assert(len(errs["a"]) == 1 && errs["a"][0].Code == "coerce" && fnCalls == 0, "C12:preprocess-mismatch-not-reported")
+			var ds struct{ A string }
+			ss := z.Preprocess(func(data string, ctx z.Ctx) (string, error) { fnCalls++; return data, nil }, z.String())
+			errs = z.Struct(z.Schema{"a": ss}).Parse(map[string]any{"a": 65}, &ds)
+			v.Assert(len(errs["a"]) == 1 && errs["a"][0].Code == "coerce" && fnCalls == 0 && ds.A == "", "C12:preprocess-mismatch-not-reported")
 		case "in-struct":
 			s := z.Preprocess(func(data string, ctx z.Ctx) (int, error) {
 				if !ctxOK(ctx) {
@@ -348,7 +362,7 @@ func C19_Jobs() []string {
 		"default-slice/top/parse", "default-slice/top/validate", "default-slice/field/parse", "default-slice/field/validate",
 		"default-slice/nested/parse", "default-slice/nested/validate",
 		"default-prim/parse", "default-prim/validate", "catch-prim/parse", "default-time/parse",
-		"oneof-list", "contains-needle",
+		"oneof-list", "contains-needle", "two-dest-types", "test-params-kept",
 		"input/map", "input/typed-slice", "input/struct", "input/nested",
 		"validate-unchanged",
 	}
@@ -488,6 +502,41 @@ func C19_Run(job string) {
 		r2 := 0
 		e2 := s.Parse(x, &r2)
 		v.Assert(len(e1) == len(e2) && r == r2, "C19:second-use-differs")
+	case "two-dest-types":
+		// a schema behaves on a later use exactly as on its first use, whatever it was used with
+		type A struct{ First, Last, Note string }
+		type B struct{ Last, First string }
+		mk := func() *z.StructSchema {
+			return z.Struct(z.Schema{"first": z.String().Required(), "last": z.String().Min(3)})
+		}
+		used := mk()
+		f, l := visible("f", 2), visible("l", 2)
+		v.Assume(len(f) > 0)
+		in := map[string]any{"first": f, "last": l}
+		var a A
+		used.Parse(in, &a)
+		used.Validate(&a)
+		var b1, b2 B
+		e1 := used.Parse(in, &b1)
+		e2 := mk().Parse(in, &b2)
+		v.Assert(sameMapsExcept(e1, e2, nil) && b1 == b2 && b1.First == f, "C19:second-use-differs")
+		e3, e4 := used.Validate(&b1), mk().Validate(&b2)
+		v.Assert(sameMapsExcept(e3, e4, nil), "C19:second-use-differs")
+	case "test-params-kept":
+		// the parameters a test was built with are the schema's: issues may be swallowed by Catch
+		// or handed back with Collect without changing them
+		params := map[string]any{"lo": d0, "hi": d1}
+		reusable := z.TestFunc("between", func(val any, c z.Ctx) bool { return false }, z.Params(params))
+		x := v.Int("x")
+		r := 0
+		z.Int().Test(reusable).GT(1<<40).Catch(1).Parse(x, &r)
+		z.Issues.CollectList(z.Int().Test(reusable).Parse(x, &r))
+		errs := z.Int().Test(reusable).GT(1<<40).Parse(x, &r)
+		v.Assert(len(params) == 2 && eqAny(params["lo"], d0), "C19:captured-list-modified")
+		v.Assert(len(errs) >= 1 && len(errs[0].Params) == 2 && eqAny(errs[0].Params["hi"], d1), "C19:second-use-differs")
+		if len(errs) == 2 {
+			v.Assert(len(errs[1].Params) == 1, "C19:second-use-differs")
+		}
 	case "contains-needle":
 		needle := []int{d0}
 		xs := [][]int{{d0}, {d1}}
